@@ -98,7 +98,17 @@ type hello struct {
 
 const nScripts, nClasses = 3, 5
 
-func hasSub(k string) bool { return k == "once" || k == "box" || k == "comp" }
+func hasSub(k string) bool {
+	switch k {
+	case "once", "box", "comp", "nsc", "wv", "wc":
+		return true
+	}
+	return false
+}
+
+const nHandles = 8
+
+var handleKinds = []string{"NewOnceHandle", "NewOnceHandle", "zero_value_literal", "zero_value_literal", "variable", "variable", "struct_field", "struct_field"}
 
 func bs(b bool) string {
 	if b {
@@ -113,7 +123,7 @@ func opText(ops []Op) string {
 	for _, o := range ops {
 		var s string
 		switch o.K {
-		case "sc", "on", "hx":
+		case "sc", "on", "hx", "onst", "onscr", "onimg", "oninp":
 			s = fmt.Sprintf("%s(s%d,%s)", o.K, o.I, o.A)
 		case "on2":
 			s = fmt.Sprintf("on2(s%d,%s,s%d,%s)", o.I, o.A, o.J, o.B)
@@ -125,7 +135,7 @@ func opText(ops []Op) string {
 			s = fmt.Sprintf("onnest(%s&%s?s%d,%s:s%d,%s)", bs(o.V), bs(o.W), o.I, o.A, o.J, o.B)
 		case "ccel":
 			s = fmt.Sprintf("ccel(%s?c%d:c%d)", bs(o.V), o.I, o.J)
-		case "cd", "cfn":
+		case "cd", "cfn", "cimg", "cinp":
 			s = fmt.Sprintf("%s(c%d)", o.K, o.I)
 		case "cc", "csl", "cn", "cma":
 			s = fmt.Sprintf("%s(c%d,c%d)", o.K, o.I, o.J)
@@ -145,7 +155,7 @@ func opText(ops []Op) string {
 			s = fmt.Sprintf("once(h%d){%s}", o.I, opText(o.Sub))
 		case "oncec":
 			s = "oncec"
-		case "box", "comp":
+		case "box", "comp", "nsc", "wv", "wc":
 			s = o.K + "{" + opText(o.Sub) + "}"
 		default:
 			s = "?" + o.K
@@ -341,6 +351,12 @@ func (nm *names) facts(o Op, first bool) []fact {
 		return []fact{{"attr", "onclick", nm.call(o.I, o.A)}}
 	case "hx":
 		return []fact{{"attr", "hx-on::click", nm.call(o.I, o.A)}}
+	case "onst", "onscr", "onimg":
+		return []fact{{"attr", "onload", nm.call(o.I, o.A)}}
+	case "oninp":
+		return []fact{{"attr", "onchange", nm.call(o.I, o.A)}}
+	case "cimg", "cinp":
+		return []fact{cl(o.I)}
 	case "on2":
 		return []fact{{"attr", "onclick", nm.call(o.I, o.A)}, {"attr", "onmouseover", nm.call(o.J, o.B)}}
 	case "onc":
@@ -407,7 +423,7 @@ func (nm *names) facts(o Op, first bool) []fact {
 		return fs
 	case "once":
 		if first {
-			return []fact{{"once", fmt.Sprintf("h%d", o.I%2), ""}}
+			return []fact{{"once", fmt.Sprintf("h%d", o.I%nHandles), ""}}
 		}
 	case "oncec":
 		if first {
@@ -434,7 +450,7 @@ func reference(ops []Op) []execOp {
 			case "once", "oncec":
 				h := "c"
 				if o.K == "once" {
-					h = fmt.Sprintf("h%d", o.I%2)
+					h = fmt.Sprintf("h%d", o.I%nHandles)
 				}
 				first := !done[h]
 				done[h] = true
@@ -463,8 +479,26 @@ func reference(ops []Op) []execOp {
 //	   pre-registered with the middleware (then R5: never inlined);
 //	R3 the ops executed are exactly those of the reference, and each rendered
 //	   its call / class name / once content inside its own wrapper.
+//
+// scopeStats: script elements seen inside a templ.WithNonce scope, and how
+// many of them carry the scope's nonce (counted only, during the main run).
+var scopeStats struct {
+	on                  bool
+	scripts, withNonce  int
+	scopesSeen, derived int
+}
+
 func checkStream(nm *names, out []byte, ops []Op, pre map[string]bool) []Viol {
 	var vs []Viol
+	kindOf := map[string]string{}
+	var kw func(ops []Op)
+	kw = func(ops []Op) {
+		for _, o := range ops {
+			kindOf[o.ID] = o.K
+			kw(o.Sub)
+		}
+	}
+	kw(ops)
 	var blame []string
 	add := func(tag, f string, a ...any) {
 		vs = append(vs, Viol{Tag: tag, Msg: fmt.Sprintf(f, a...), Ops: blame})
@@ -515,6 +549,14 @@ func checkStream(nm *names, out []byte, ops []Op, pre map[string]bool) []Viol {
 					id = ""
 				} else {
 					order = append(order, id)
+					if scopeStats.on {
+						switch kindOf[id] {
+						case "nsc":
+							scopeStats.scopesSeen++
+						case "wv", "wc":
+							scopeStats.derived++
+						}
+					}
 				}
 				stack = append(stack, id)
 			}
@@ -539,6 +581,17 @@ func checkStream(nm *names, out []byte, ops []Op, pre map[string]bool) []Viol {
 					got[top()] = append(got[top()], fact{"attr", a.Key, a.Val})
 					if m := reCall.FindStringSubmatch(a.Val); m != nil && isScript[m[1]] {
 						uses = append(uses, use{"script " + m[1], i, top()})
+					}
+				}
+			}
+			if _, static := attr["src"]; scopeStats.on && t.Name == "script" && !static { // scripts emitted by templ
+				for _, id := range stack {
+					if kindOf[id] == "nsc" {
+						scopeStats.scripts++
+						if attr["nonce"] == "sc0pe" {
+							scopeStats.withNonce++
+						}
+						break
 					}
 				}
 			}
@@ -676,7 +729,9 @@ func repeated(cs Case) bool {
 		for _, e := range reference(flat(c)) {
 			o := e.op
 			switch o.K {
-			case "sc", "on", "hx", "onc":
+			case "cimg", "cinp":
+				n[fmt.Sprint("c", o.I%nClasses)]++
+			case "sc", "on", "hx", "onc", "onst", "onscr", "onimg", "oninp":
 				n[fmt.Sprint("s", o.I%nScripts)]++
 			case "on2", "onel", "hxel", "onnest":
 				n[fmt.Sprint("s", o.I%nScripts)]++
@@ -694,7 +749,7 @@ func repeated(cs Case) bool {
 					n[fmt.Sprint("c", e.I%nClasses)]++
 				}
 			case "once":
-				n[fmt.Sprint("h", o.I%2)]++
+				n[fmt.Sprint("h", o.I%nHandles)]++
 			case "oncec":
 				n["hc"]++
 				n["c2"]++
@@ -908,7 +963,7 @@ func (e *engine) judge(cs Case) []Viol {
 
 // ---------------------------------------------------------------- generators
 
-var classForms = []string{"cd", "cc", "ckv", "ckvc", "csl", "cn", "cfn", "ckvs", "cmix", "cma", "ccond", "ccel", "cdyn"}
+var classForms = []string{"cd", "cc", "ckv", "ckvc", "csl", "cn", "cfn", "ckvs", "cmix", "cma", "ccond", "ccel", "cdyn", "cimg", "cinp"}
 var dynForms = []string{"d", "kv", "kvc", "sl", "n", "fn", "kvs", "s", "m", "ks"}
 
 // atoms: the op instances used for exhaustive enumeration.
@@ -933,8 +988,11 @@ func atoms() []Op {
 		Op{K: "cmix", I: 0, V: true, J: 1, W: true}, Op{K: "cmix", I: 0, V: false, J: 1, W: false},
 		Op{K: "cma", I: 0, J: 1},
 		Op{K: "ccond", I: 0, V: true}, Op{K: "ccond", I: 0, V: false},
-		Op{K: "once", I: 0}, Op{K: "once", I: 1}, Op{K: "oncec"},
-		Op{K: "box"}, Op{K: "comp"},
+		Op{K: "onst", I: 0, A: "a"}, Op{K: "onscr", I: 0, A: "a"}, Op{K: "onimg", I: 0, A: "a"}, Op{K: "oninp", I: 0, A: "a"},
+		Op{K: "cimg", I: 0}, Op{K: "cinp", I: 0},
+		Op{K: "once", I: 0}, Op{K: "once", I: 1}, Op{K: "once", I: 2}, Op{K: "once", I: 3}, Op{K: "once", I: 4}, Op{K: "once", I: 5},
+		Op{K: "once", I: 6}, Op{K: "once", I: 7}, Op{K: "oncec"},
+		Op{K: "box"}, Op{K: "comp"}, Op{K: "nsc"}, Op{K: "wv"}, Op{K: "wc"},
 	)
 	for _, f := range dynForms {
 		as = append(as, Op{K: "cdyn", E: []Ent{{F: f, I: 0, V: true}}})
@@ -947,7 +1005,7 @@ func randOp(r *rand.Rand, depth int, budget *int) Op {
 	o := Op{I: r.Intn(3), J: r.Intn(3), A: string(rune('a' + r.Intn(3))), B: string(rune('a' + r.Intn(3))), V: r.Intn(3) > 0, W: r.Intn(3) > 0}
 	switch p := r.Intn(20); {
 	case p < 5:
-		o.K = []string{"sc", "on", "on2", "onc", "hx", "onel", "onel", "onnest", "hxel"}[r.Intn(9)]
+		o.K = []string{"sc", "on", "on2", "onc", "hx", "onel", "onel", "onnest", "hxel", "onst", "onscr", "onimg", "oninp"}[r.Intn(13)]
 		o.V, o.W = r.Intn(2) == 0, r.Intn(2) == 0
 	case p < 13:
 		o.K = classForms[r.Intn(len(classForms))]
@@ -983,11 +1041,13 @@ func randOp(r *rand.Rand, depth int, budget *int) Op {
 		}
 	case p < 16:
 		o.K = "once"
-		o.I = r.Intn(2)
+		o.I = r.Intn(nHandles)
 	case p < 17:
 		o.K = "oncec"
-	case p < 19:
+	case p < 18:
 		o.K = "box"
+	case p < 19:
+		o.K = []string{"nsc", "nsc", "wv", "wc"}[r.Intn(4)]
 	default:
 		o.K = "comp"
 	}
@@ -1106,7 +1166,7 @@ func size(cs Case) int {
 				n++
 			}
 			switch o.K {
-			case "on2", "cc", "csl", "cn", "cma", "ckvs", "cmix", "cdyn", "onc", "ccond", "hx", "cfn", "ckv", "ckvc":
+			case "on2", "cc", "csl", "cn", "cma", "ckvs", "cmix", "cdyn", "onc", "ccond", "hx", "cfn", "ckv", "ckvc", "onst", "onscr", "onimg", "oninp", "cimg", "cinp", "nsc", "wv", "wc", "comp":
 				n++ // these have a simpler sibling form
 			case "onel", "onnest", "hxel", "ccel":
 				n += 2
@@ -1205,8 +1265,12 @@ func opReductions(ops []Op) [][]Op {
 			mod(func(o *Op) { o.K = "ccond" })
 		}
 		switch o.K {
-		case "on2", "onc", "hx":
+		case "on2", "onc", "hx", "onst", "onscr", "onimg", "oninp":
 			mod(func(o *Op) { o.K = "on" })
+		case "cimg", "cinp":
+			mod(func(o *Op) { o.K = "cd" })
+		case "nsc", "wv", "wc", "comp":
+			mod(func(o *Op) { o.K = "box" })
 		case "cc", "csl", "cn", "cma", "ccond", "cfn", "cmix":
 			mod(func(o *Op) { o.K = "cd" })
 		case "ckv", "ckvc", "ckvs":
@@ -1313,12 +1377,12 @@ func usesJ(k string) bool {
 	return false
 }
 
-func usesI(k string) bool { return k != "cdyn" && k != "oncec" && k != "box" && k != "comp" }
+func usesI(k string) bool { return k != "cdyn" && k != "oncec" && !(hasSub(k) && k != "once") }
 
 func isClassOp(k string) bool { return strings.HasPrefix(k, "c") && k != "comp" }
 func isScriptOp(k string) bool {
 	switch k {
-	case "sc", "on", "on2", "onc", "hx", "onel", "hxel", "onnest":
+	case "sc", "on", "on2", "onc", "hx", "onel", "hxel", "onnest", "onst", "onscr", "onimg", "oninp":
 		return true
 	}
 	return false
@@ -1371,6 +1435,31 @@ func swapItem(cs Case, class bool, x int) Case {
 	return c
 }
 
+// swapHandle exchanges once handles x and y everywhere in the case.
+func swapHandle(cs Case, x, y int) Case {
+	c := cloneCase(cs)
+	var walk func(ops []Op)
+	walk = func(ops []Op) {
+		for i := range ops {
+			if ops[i].K == "once" {
+				switch ops[i].I % nHandles {
+				case x:
+					ops[i].I = y
+				case y:
+					ops[i].I = x
+				}
+			}
+			walk(ops[i].Sub)
+		}
+	}
+	for ci := range c.Ctxs {
+		for j := range c.Ctxs[ci].Chunks {
+			walk(c.Ctxs[ci].Chunks[j])
+		}
+	}
+	return c
+}
+
 func reductions(cs Case) []Case {
 	var out []Case
 	add := func(c Case) {
@@ -1379,9 +1468,41 @@ func reductions(cs Case) []Case {
 			out = append(out, c)
 		}
 	}
-	for x := 1; x < nClasses; x++ {
-		add(swapItem(cs, true, x))
-		if x < nScripts {
+	// consistent renamings, only of items that occur
+	usedH, usedC, usedS := map[int]bool{}, map[int]bool{}, map[int]bool{}
+	var scan func(ops []Op)
+	scan = func(ops []Op) {
+		for _, o := range ops {
+			switch {
+			case o.K == "once":
+				usedH[o.I%nHandles] = true
+			case isClassOp(o.K):
+				usedC[o.I], usedC[o.J] = true, true
+				for _, e := range o.E {
+					usedC[e.I] = true
+				}
+			case isScriptOp(o.K):
+				usedS[o.I], usedS[o.J] = true, true
+			}
+			scan(o.Sub)
+		}
+	}
+	for _, c := range cs.Ctxs {
+		scan(flat(c))
+	}
+	for _, p := range append(append([]int{}, cs.Pre...), cs.Pre2...) {
+		usedC[p] = true
+	}
+	for x := 1; x < nHandles; x++ {
+		for y := 0; y < x && usedH[x]; y++ {
+			add(swapHandle(cs, x, y))
+		}
+	}
+	for x := 1; x < 8; x++ {
+		if usedC[x] {
+			add(swapItem(cs, true, x))
+		}
+		if usedS[x] {
 			add(swapItem(cs, false, x))
 		}
 	}
@@ -1669,7 +1790,7 @@ func dbg(f string, a ...any) {
 
 // Run is the C12 check.
 func Run(c *core.Ctx) {
-	c.Rule = "cases = use histories (ops: render script component, on*/hx-on attribute with one or two scripts, on*/hx-on and class attributes in the then- and else-branch of attribute-level if (also nested), class expressions holding css components in every container form accepted by templ.Classes/RenderCSSItems incl. composed ones, once handles with block / WithComponent; nested in child blocks, child components and once blocks) over 3 scripts, 5 css classes (2 from one parametrised css template), 3 once handles, rendered by one compiled interpreter in 1..3 contexts whose chunks are rendered alternately, or through CSSMiddleware+Handler with a pre-registered subset (middleware built by NewCSSMiddleware, by struct literal around NewCSSHandler, or by struct literals only, optionally under another path; exported Classes then left alone / appended to / replaced / truncated before serving); oracle on the HTML5 token stream: <=1 definition per item and context, definition before first use, every executed op renders its call/class name/once content in its own wrapper, executed ops = reference, a class served by the real stylesheet endpoint of the same middleware is never inlined and every other used class is inlined once before use, classes in the exported list are served, every context byte-equal to the same history rendered alone; exhaustive part: all sequences of length<=2 over the op atoms, each also nested in once/box/comp (thorough: length<=3 over the flat atoms); non-trivial = some item used at least twice in one context; distinct by canonical case text"
+	c.Rule = "cases = use histories (ops: render script component, on*/hx-on attribute with one or two scripts, on*/hx-on and class attributes in the then- and else-branch of attribute-level if (also nested), class expressions holding css components in every container form accepted by templ.Classes/RenderCSSItems incl. composed ones, once handles made by NewOnceHandle, &OnceHandle{}, address of a variable, address of a struct field, with block / WithComponent; script and class attributes on <style>/<script>/void elements; sub-histories rendered with a context derived inside the tree by templ.WithNonce, context.WithValue or context.WithCancel (same rendering context); nested in child blocks, child components and once blocks) over 3 scripts, 5 css classes (2 from one parametrised css template), 9 once handles, rendered by one compiled interpreter in 1..3 contexts whose chunks are rendered alternately, or through CSSMiddleware+Handler with a pre-registered subset (middleware built by NewCSSMiddleware, by struct literal around NewCSSHandler, or by struct literals only, optionally under another path; exported Classes then left alone / appended to / replaced / truncated before serving); oracle on the HTML5 token stream: <=1 definition per item and context, definition before first use, every executed op renders its call/class name/once content in its own wrapper, executed ops = reference, a class served by the real stylesheet endpoint of the same middleware is never inlined and every other used class is inlined once before use, classes in the exported list are served, every context byte-equal to the same history rendered alone; exhaustive part: all sequences of length<=2 over the op atoms, each also nested in once/box/comp (thorough: length<=3 over the flat atoms); non-trivial = some item used at least twice in one context; distinct by canonical case text"
 	c.Assume("golang.org/x/net/html tokenizer; class ids and script function names are taken as opaque labels announced by the driver")
 	c.Assume("within one class expression a css component is never both enabled and disabled (the winner would be a policy question outside C12)")
 	e := build(c)
@@ -1696,7 +1817,9 @@ func Run(c *core.Ctx) {
 	// (case, violated rule) pair; the raw outputs of the batch are dropped.
 	process := func(cases []Case) {
 		e.cache = map[string]*result{}
+		scopeStats.on = true
 		got := e.evaluate(cases)
+		scopeStats.on = false
 		total += len(cases)
 		dbg("evaluated %d", total)
 		var fails []failure
@@ -1726,6 +1849,12 @@ func Run(c *core.Ctx) {
 				}
 				for _, x := range ref { // conditional-attribute uses executed (= observed: R3)
 					switch x.op.K {
+					case "once":
+						if x.first {
+							c.Add("once_first_uses_"+handleKinds[x.op.I%nHandles], 1)
+						}
+					case "onst", "onscr", "onimg", "oninp", "cimg", "cinp":
+						c.Add("uses_on_"+map[string]string{"onst": "style_element", "onscr": "script_element", "onimg": "void_img", "oninp": "void_input", "cimg": "void_img_class", "cinp": "void_input_class"}[x.op.K], 1)
 					case "onc":
 						if x.op.V {
 							c.Add("cond_attr_script_uses_then", 1)
@@ -1776,7 +1905,7 @@ func Run(c *core.Ctx) {
 	for _, a := range as {
 		wrapped = append(wrapped, a)
 		if !hasSub(a.K) {
-			wrapped = append(wrapped, Op{K: "once", I: 0, Sub: []Op{a}}, Op{K: "box", Sub: []Op{a}}, Op{K: "comp", Sub: []Op{a}})
+			wrapped = append(wrapped, Op{K: "once", I: 0, Sub: []Op{a}}, Op{K: "box", Sub: []Op{a}}, Op{K: "nsc", Sub: []Op{a}})
 		}
 	}
 	var cases []Case
@@ -1835,6 +1964,10 @@ func Run(c *core.Ctx) {
 	c.Set("exhaustive_histories", exh)
 	c.Set("random_cases", nr)
 	c.Set("op_atoms", len(as))
+	c.Set("nonce_scopes_rendered", scopeStats.scopesSeen)
+	c.Set("withvalue_withcancel_scopes_rendered", scopeStats.derived)
+	c.Set("script_elements_inside_nonce_scope", scopeStats.scripts)
+	c.Set("script_elements_inside_nonce_scope_carrying_the_nonce", scopeStats.withNonce)
 	c.Set("contexts_rendered", nctx)
 	c.Set("middleware_cases", nhttp)
 	c.Set("multi_context_cases", multi)
